@@ -165,6 +165,33 @@ def analyse(pid, overlay):
     return new, None
 
 
+_REFORMATTED = None
+
+
+def reformatted_tree():
+    """{relpath: ast.unparse(ast.parse(text))} for every non-test module"""
+    global _REFORMATTED
+    if _REFORMATTED is None:
+        import ast
+        out = {}
+        base = os.path.join(REPO, "src", "psyclone")
+        for root, dirs, files in os.walk(base):
+            dirs[:] = [d for d in dirs if d != "tests"]
+            for fname in files:
+                if not fname.endswith(".py"):
+                    continue
+                full = os.path.join(root, fname)
+                with open(full, encoding="utf-8") as fin:
+                    text = fin.read()
+                try:
+                    out[os.path.relpath(full, REPO)] = ast.unparse(
+                        ast.parse(text))
+                except SyntaxError:
+                    continue
+        _REFORMATTED = out
+    return _REFORMATTED
+
+
 def run_for(pid, verbose=True):
     """-> None if fine, else text describing the failing variants."""
     results = []
@@ -225,6 +252,14 @@ def run_for(pid, verbose=True):
             new, err = analyse(pid, overlay)
             results.append(_judge(f"seeded/{name}", expect, new, err,
                                   failures))
+    # behaviour-preserving twin of the whole tree: every non-test module
+    # re-generated from its syntax tree (comments gone, layout, quoting and
+    # parenthesisation changed).  A rule that matched source text rather
+    # than structure would alarm here.
+    overlay = reformatted_tree()
+    new, err = analyse(pid, overlay)
+    results.append(_judge("whole-tree reformatted (ast round trip)",
+                          "silent", new, err, failures))
     if verbose:
         for name, res in results:
             print(f"selftest {pid} {name}: {res}")
